@@ -35,6 +35,30 @@ Theorem recv_buffer_stale_refuted :
   exists prev prev' size stream, recv_buffer_stale prev size stream <> recv_buffer_stale prev' size stream.
 Proof. exists [1; 2; 3; 4], [1; 2; 3; 9], 2%nat, [7; 7]. vm_compute. discriminate. Qed.
 
+(** the structural reading of appendBuffer with the views the fixed tree uses is the model above ... *)
+Theorem recv_buffer_g_exact prev hid size stream :
+  recv_buffer_g SLen SFirst SFirst prev hid size stream = recv_buffer prev size stream.
+Proof.
+  unfold recv_buffer_g, recv_buffer, pool_slice, grows, view.
+  destruct (Nat.ltb (List.length prev) size) eqn:E; [reflexivity|].
+  apply Nat.ltb_ge in E. rewrite (firstn_length_le prev E). reflexivity.
+Qed.
+
+(** ... so what decode sees depends neither on the visible nor on the hidden previous content *)
+Theorem recv_buffer_g_independent prev hid prev' hid' size stream :
+  recv_buffer_g SLen SFirst SFirst prev hid size stream = recv_buffer_g SLen SFirst SFirst prev' hid' size stream.
+Proof. rewrite !recv_buffer_g_exact. apply recv_buffer_independent. Qed.
+
+(** ... whereas EVERY other view handed to decode (whole length, whole capacity), whatever decides growth,
+    lets bytes of an earlier message reach the decoder *)
+Theorem recv_buffer_g_stale_refuted : forall cmp dec, dec <> SFirst ->
+  exists prev hid prev' hid' size stream,
+    recv_buffer_g cmp dec SFirst prev hid size stream <> recv_buffer_g cmp dec SFirst prev' hid' size stream.
+Proof.
+  intros cmp dec H. exists [1; 2; 3; 4], [], [1; 2; 3; 9], [], 2%nat, [7; 7].
+  destruct cmp, dec; try (exfalso; apply H; reflexivity); vm_compute; discriminate.
+Qed.
+
 (** ---- server read buffer ---- *)
 
 Lemma zero_repeat n : zero_buf (repeat 0 n).
